@@ -295,6 +295,20 @@ class SimFS:
             f.write(text)       # the client's editor saves in the locale's encoding
         self.stamp(rel, advance)
 
+    def dirs(self):
+        out = set()
+        for d, dirs_, _files in os.walk(self.root):
+            for n in dirs_:
+                out.add(os.path.relpath(os.path.join(d, n), self.root))
+        return out
+
+    def symlink(self, rel, target_rel):
+        p = os.path.join(self.root, rel)
+        os.makedirs(os.path.dirname(p), exist_ok=True)
+        if os.path.lexists(p):
+            os.remove(p)
+        os.symlink(os.path.relpath(os.path.join(self.root, target_rel), os.path.dirname(p)), p)
+
     def write_bytes(self, rel, data, advance=True):
         p = os.path.join(self.root, rel)
         os.makedirs(os.path.dirname(p), exist_ok=True)
@@ -420,6 +434,8 @@ class World:
         os.makedirs(os.path.join(self.root, "outputs"))
         self.prev_cwd = os.getcwd()
         os.chdir(self.root)
+        self.fd_baseline = self._fds()
+        self._old_nofile = None
         self.fs = SimFS(self.root, stepclock)
         proc.SCRIPT_DIR = self.root
         self.repo_files = frozenset(snap.paths.values())
@@ -437,11 +453,49 @@ class World:
     def probe(self, name, n=1):
         self.probes[name] = self.probes.get(name, 0) + n
 
+    @staticmethod
+    def _fds():
+        try:
+            return set(int(x) for x in os.listdir("/proc/self/fd"))
+        except OSError:
+            return set()
+
+    def limit_descriptors(self, spare):
+        """Resource limit of the simulated machine: only `spare` more descriptors than are open now."""
+        import resource
+        soft, hard = resource.getrlimit(resource.RLIMIT_NOFILE)
+        self._old_nofile = (soft, hard)
+        want = max(self._fds() | {0}) + 1 + int(spare)
+        try:
+            resource.setrlimit(resource.RLIMIT_NOFILE, (min(want, hard), hard))
+            self.fired("descriptor-limit")
+        except (ValueError, OSError):
+            self._old_nofile = None
+
     def close(self):
         try:
             self.fs.end_op(process_ends=True)
         except Exception:
             pass
+        if self._old_nofile is not None:
+            import resource
+            try:
+                resource.setrlimit(resource.RLIMIT_NOFILE, self._old_nofile)
+            except (ValueError, OSError):
+                pass
+        # descriptors the code under test leaked (os.open and friends) must not outlive the simulated process
+        import gc as _gc
+        _gc.collect()
+        leaked = [fd for fd in self._fds() - self.fd_baseline]
+        n_closed = 0
+        for fd in leaked:
+            try:
+                os.close(fd)
+                n_closed += 1
+            except OSError:
+                pass
+        if n_closed:
+            self.probe("leaked-descriptors-closed-at-process-end", n_closed)
         try:
             os.chdir(self.prev_cwd)
         except OSError:
@@ -488,6 +542,15 @@ class World:
         if cfg.get("pollute") is not None:
             _random.seed(cfg["pollute"])
             self.fired("prng-pollution")
+        amb = cfg.get("ambient") or {}
+        import decimal as _decimal
+        dctx = _decimal.getcontext()
+        old_dec = (dctx.rounding, dctx.prec)
+        if amb.get("decimal_rounding"):
+            # another tenant of the process changed the (thread-wide) decimal context
+            dctx.rounding = getattr(_decimal, amb["decimal_rounding"])
+            dctx.prec = int(amb.get("decimal_prec", dctx.prec))
+            self.fired("ambient-decimal-context")
         if cfg.get("log"):
             import logging
             root = logging.getLogger()
@@ -585,6 +648,7 @@ class World:
             for k, v in _REAL_TIME.items():
                 setattr(_time, k, v)
             fs.clock = None
+            dctx.rounding, dctx.prec = old_dec
         out["stdout"] = so.n
         out["stderr"] = se.n
         out["stderr_text"] = se.text()[:2000]
